@@ -98,6 +98,17 @@ def bmap_get(ex, st, info, args):
                     lambda s2: NONE)
 
 
+def _bmap_index(ex, st, info, args):
+    mref, kref = args
+    key = deref_all(ex, st, kref)
+    return find_key(ex, st, mref, key,
+                    lambda s2, i: Ref(mref.base, mref.projs + (('mapval', i),), mref.mut),
+                    lambda s2: Panic('key not found in BTreeMap (Index::index)'))
+
+
+B.traits.setdefault(('Index', 'index'), []).insert(0, (lambda info: type_key(info['selfty']) == 'BTreeMap', _bmap_index))
+
+
 @B.path('BTreeMap::contains_key')
 def bmap_contains(ex, st, info, args):
     mref, kref = args
@@ -146,6 +157,83 @@ def bmap_keys(ex, st, info, args):
 @B.path('BTreeMap::iter', 'BTreeMap::iter_mut')
 def bmap_iter(ex, st, info, args):
     return Struct('MapIter', (args[0], Int('usize', 0)))
+
+
+@B.path('BTreeMap::values', 'BTreeMap::values_mut')
+def bmap_values(ex, st, info, args):
+    return Struct('MapValues', (args[0], Int('usize', 0)))
+
+
+def _next_map_values(ex, st, itref, it, k):
+    r, i = it.f
+    m = ex.read_ref(st, r)
+    if i.v >= len(m.ents):
+        return k(st, NONE)
+    ex.write_ref(st, itref, Struct('MapValues', (r, Int('usize', i.v + 1))))
+    return k(st, mk_some(Ref(r.base, r.projs + (('mapval', i.v),), r.mut)))
+
+
+from . import builtins as _bi      # noqa: E402
+_bi.ITER_EXT['MapValues'] = _next_map_values
+
+
+@B.path('BTreeMap::clear')
+def bmap_clear(ex, st, info, args):
+    ex.write_ref(st, args[0], BMap(()))
+    return UNIT
+
+
+@B.path('Entry::or_insert_with', 'btree_map::Entry::or_insert_with')
+def entry_or_insert_with(ex, st, info, args):
+    e, f = args
+    if e.variant == 'Occupied':
+        mref, idx = e.f[0].f
+        return Ref(mref.base, mref.projs + (('mapval', idx.p),), True)
+    mref, key = e.f[0].f
+
+    def made(st2, v):
+        m = ex.read_ref(st2, mref)
+        if len(m.ents) >= MAX_MAP:
+            raise ExecError('map grew beyond the modelled bound')
+        ex.builtins_alloc(st2, 1)
+        ex.write_ref(st2, mref, BMap(m.ents + ((key, v),)))
+        return Ref(mref.base, mref.projs + (('mapval', len(m.ents)),), True)
+    return call_fn(f, [], made)
+
+
+@B.path('Entry::and_modify', 'btree_map::Entry::and_modify')
+def entry_and_modify(ex, st, info, args):
+    e, f = args
+    if e.variant != 'Occupied':
+        return e
+    mref, idx = e.f[0].f
+    return call_fn(f, [Ref(mref.base, mref.projs + (('mapval', idx.p),), True)], lambda s2, r: e)
+
+
+@B.path('Entry::key', 'btree_map::Entry::key')
+def entry_key(ex, st, info, args):
+    e = deref_all(ex, st, args[0])
+    if e.variant == 'Occupied':
+        mref, idx = e.f[0].f
+        return Ref(('V', ex.read_ref(st, mref).ents[idx.p][0]))
+    return Ref(('V', e.f[0].f[1]))
+
+
+@B.path('OccupiedEntry::get', 'OccupiedEntry::get_mut', 'OccupiedEntry::into_mut')
+def occupied_get(ex, st, info, args):
+    oe = deref_all(ex, st, args[0])
+    mref, idx = oe.f
+    return Ref(mref.base, mref.projs + (('mapval', idx.p),), True)
+
+
+@B.path('VacantEntry::insert')
+def vacant_insert(ex, st, info, args):
+    ve, v = args
+    mref, key = ve.f
+    m = ex.read_ref(st, mref)
+    ex.builtins_alloc(st, 1)
+    ex.write_ref(st, mref, BMap(m.ents + ((key, v),)))
+    return Ref(mref.base, mref.projs + (('mapval', len(m.ents)),), True)
 
 
 @B.path('BTreeMap::retain')
